@@ -28,6 +28,7 @@ EXPLANATION = (
     "updated only on the load-increase branch, the minimum on the other, both against the current point's strain.")
 EXPLANATION += (' R-C05-7: visited strains are one list split at a counter; every append is followed by `if run_index == 1: counter += 1`, the counter changes nowhere else, the accessors return [:counter] and [counter:]. R-C05-8: a decision taken on the first assessment point and applied to all points compares loads or sample positions only (proportional histories order loads alike at every point); any first-point comparison of stresses or strains is a violation - they are nonlinear in the load factor, and with a binned law even the two ends of one branch can tie at one point and differ at another. R-C05-9: chunk-relative positions (global position minus head index before the chunk); the repair of a turning point lying in the carried tail is guarded by a complete sign test (< 0), and the stored sample is the last load step of the chunk.')
 EXPLANATION += (' R-C05-10: the HCM case decisions compare loads and load ranges exactly up to a fixed absolute round-off guard (a literal <= 1e-9); relative tolerances (np.isclose, rounding) in a decision are violations.')
+EXPLANATION += (' R-C05-13: the representative load history of a batch is never taken by striding over the rows of the incoming samples (built-in positive example).')
 EXPLANATION += (' R-C05-11: nothing cached on the FKM-nonlinear recorder or detector survives a later recording call (memo rule).')
 EXPLANATION += (' R-C05-12: the per-point look-up tables of the binned law keep the row order they were built in (shared with R-C07-8).')
 ASSUMPTIONS = ["pd.concat([a, b]) appends b after a"]
@@ -37,8 +38,56 @@ LISTS = ["_loads_min", "_loads_max", "_S_min", "_S_max", "_epsilon_min", "_epsil
 
 
 def run(ctx):
-    for r in (_r1, _r2, _r3, _r4, _r5, _r6, _r7, _r8, _r9, _r10, _r11, _r12):
+    for r in (_r1, _r2, _r3, _r4, _r5, _r6, _r7, _r8, _r9, _r10, _r11, _r12, _r13):
         ctx.attempt(r)
+
+
+def _strided_sample_reads(fn_node, params):
+    """subscripts  <expr over the incoming samples>[a:b:step]  with a step that is not a literal 1 / -1: the rows of a multi-point
+    batch are taken by position, which is the history of one point only if the rows are ordered load step by load step"""
+    derived = set(params)
+    for _ in range(3):
+        for st in ast.walk(fn_node):
+            if isinstance(st, ast.Assign) and any(isinstance(n_, ast.Name) and n_.id in derived for n_ in ast.walk(st.value)):
+                for t_ in st.targets:
+                    for n_ in ast.walk(t_):
+                        if isinstance(n_, ast.Name):
+                            derived.add(n_.id)
+    out = []
+    for n_ in ast.walk(fn_node):
+        if isinstance(n_, ast.Subscript) and isinstance(n_.slice, ast.Slice) and n_.slice.step is not None and \
+                const_value(n_.slice.step) not in (1, -1) and any(isinstance(x_, ast.Name) and x_.id in derived for x_ in ast.walk(n_.value)):
+            out.append(n_)
+    return out
+
+
+def _r13(ctx):
+    """R-C05-13: the representative load history of a batch (the first point's loads, one per load step) is selected through
+    the index (group by load step / level values), never by striding over the rows: a batch whose rows are grouped by node
+    instead of by load step would otherwise be counted on a mixture of points and steps."""
+    prog = ctx.prog
+    ctx.rule("R-C05-13", floor=1, what="the representative load history is selected by index level, not by row stride")
+    ci = prog.cls(D[:-1])
+    n = 0
+    for name, defs in ci.methods.items():
+        fi = defs[-1]
+        params = [q for q in fi.params if q in ("samples", "load_turning_points", "turns", "signal")]
+        if not params:
+            continue
+        n += 1
+        bad = _strided_sample_reads(fi.node, params)
+        for b_ in bad:
+            ctx.violated(fi, b_, "%s takes every n-th row of the incoming samples (%s): that is one point's load history only for a "
+                         "batch ordered load step by load step; rows grouped by node give a mixture of points and steps"
+                         % (fi.name, norm_text(b_)[:80]), text="strided samples " + fi.name)
+        if not bad:
+            ctx.holds(fi, fi.node, "%s: no strided read of the incoming samples" % fi.name)
+    ex = ast.parse("def process(self, samples):\n    n = samples.index.get_level_values('node_id').nunique()\n"
+                   "    a = samples.to_numpy()[::n]\n    b = samples.to_numpy()[::-1]\n").body[0]
+    if [norm_text(x_) for x_ in _strided_sample_reads(ex, ["samples"])] != ["samples.to_numpy()[::n]"]:
+        raise AnalysisError("R-C05-13 built-in example not matched")
+    if n == 0:
+        raise AnalysisError("no detector method receiving samples found")
 
 
 def _arg_role(f, a):
